@@ -382,9 +382,6 @@ func c15judgeHop(h *c15hist, m *c15histModel, i int, o c15obs) (kind, detail, si
 			}
 			return "oracle", fmt.Sprintf("%s: the reads delivered %s before the post-opening text, this opening's data is %s", where, gotData, l.specData), sig
 		}
-		if l.specData != "-" && (len(o.reads) == 0 || vlib.Hex(o.reads[0]) != l.specData) {
-			return "oracle", fmt.Sprintf("%s: first Read returned %x, this opening's data is %s", where, o.reads, l.specData), "history:first-read-wrong"
-		}
 	}
 	if o.openErr != nil {
 		return "correspondence", fmt.Sprintf("%s: Open failed: %v (model: opens)", where, o.openErr), "history:public-open-error"
